@@ -300,7 +300,7 @@ def make_program(rnd, features, threads=False):
             fl = list(funcs[i])
             # the twin keeps the NAME f<i> in its own file (value-equal code object up to the file name);
             # the driver executes that file in its own namespace and binds it as u<i> for main()
-            shift = rnd.choice([0, 0, 1, 3])
+            shift = 0 if 'twindeco' in features else rnd.choice([0, 0, 1, 3])
             pre = ['# twin file'] + PRELUDE.strip('\n').split('\n')
             other = pre + [''] * (start - len(pre) + shift) + fl + ['']
             files.append(('twin.py', '\n'.join(other) + '\n'))
@@ -377,6 +377,9 @@ def make_program(rnd, features, threads=False):
     nreg = rnd.randrange(1, len(names) + 1)
     regnames = rnd.sample(names, nreg)
     regnames += [x for x in delegs if x not in regnames]
+    if 'twindeco' in features:
+        # a same-name, same-line copy in another file and its original, both registered through the decorator
+        regnames += [x for pair in twin_of.items() for x in pair if x not in regnames]
     regnames += [x for x in names if kinds[x] == 'agen' and x not in regnames]
     if 'addmod' in features:
         # register through add_module: the functions of each file as one module object
@@ -411,7 +414,8 @@ def make_program(rnd, features, threads=False):
         regnames = []
     for nm in regnames:
         if (rnd.random() < 0.5 or 'bare' in features) and not ('cotasks' in features and kinds[nm] == 'co') \
-                and not (kinds[nm] == 'agen' and rnd.random() < 0.8):
+                and not (kinds[nm] == 'agen' and rnd.random() < 0.8) \
+                and not ('twindeco' in features and (nm in twin_of or nm in twin_of.values())):
             m.append('    P.reg(%r)' % nm)
             registered.append(nm)
         else:
